@@ -63,7 +63,7 @@ def run_vx(unit_list, units, workdir):
                         it[k] = e.opts[k]
                 if 'opaque_fields' in e.opts:
                     it['opaque_fields'] = e.opts['opaque_fields'].split(',')
-                for k in ('custom_iters', 'box_receivers', 'opaque_calls', 'eager_receivers'):
+                for k in ('custom_iters', 'box_receivers', 'opaque_calls', 'eager_receivers', 'inline_closures', 'string_vars'):
                     if k in e.opts:
                         it[k] = [x.strip() for x in e.opts[k].split(',')]
                 bl = (shapes().get(item_key(e)) or {}).get('loops')
@@ -298,6 +298,7 @@ def sha(s):
 
 PRELUDE = """// GENERATED by /verif/vlib/assemble.py from /repo/src -- do not edit
 #![feature(allocator_api)]
+#![feature(pattern)]
 #![allow(unused_imports, unused_variables, unused_mut, unused_braces, unused_parens, dead_code, non_snake_case, unused_assignments, redundant_semicolons)]
 use vstd::prelude::*;
 verus! {
